@@ -91,6 +91,10 @@ type item struct {
 	Bytes []byte
 	// what a correct server owes: a terminal message for this run id (non-empty = accepted work-start)
 	Run string
+	// Kind: which terminal message the run is owed: "done" (the step returned a declared output that conforms),
+	// "fatal" (it failed, panicked, was refused its input, returned an undeclared output id or non-conforming data), or
+	// "" (not pinned down)
+	Kind string
 	// MayAnswer: the server may (but need not) answer this malformed work-start with a step-fatal error
 	MayAnswer string
 	// the server stops reading after this item
@@ -116,16 +120,17 @@ func sg(run, sig string, data any) []byte {
 var alphabet []item
 
 func init() {
+	kindOf := map[string]string{"success": "done", "error": "done", "slow": "done", "undeclared": "fatal", "badvalue": "fatal", "wrongtype": "fatal", "panic": "fatal"}
 	for _, m := range []string{"success", "error", "undeclared", "badvalue", "wrongtype", "panic", "slow", "inf"} {
-		alphabet = append(alphabet, item{Name: "start(r1," + m + ")", Bytes: ws("r1", "s", m), Run: "r1"})
+		alphabet = append(alphabet, item{Name: "start(r1," + m + ")", Bytes: ws("r1", "s", m), Run: "r1", Kind: kindOf[m]})
 	}
 	alphabet = append(alphabet,
-		item{Name: "start(r2,success)", Bytes: ws("r2", "s", "success"), Run: "r2"},
-		item{Name: "start(r1,unknown-step)", Bytes: ws("r1", "nope", "success"), Run: "r1"},
+		item{Name: "start(r2,success)", Bytes: ws("r2", "s", "success"), Run: "r2", Kind: "done"},
+		item{Name: "start(r1,unknown-step)", Bytes: ws("r1", "nope", "success"), Run: "r1", Kind: "fatal"},
 		item{Name: "start(no-run-id)", Bytes: ws("", "s", "success")},
 		item{Name: "start(r3,no-step-id)", Bytes: ws("r3", "", "success")},
 		item{Name: "start(r1,config=42)", Bytes: rt(atp.MessageTypeWorkStart, "r1", atp.WorkStartMessage{StepID: "s", Config: int64(42)}), Run: "r1"},
-		item{Name: "start(r1,rejected-input)", Bytes: rt(atp.MessageTypeWorkStart, "r1", atp.WorkStartMessage{StepID: "s", Config: map[string]any{"mode": []any{int64(1), int64(2)}}}), Run: "r1"},
+		item{Name: "start(r1,rejected-input)", Bytes: rt(atp.MessageTypeWorkStart, "r1", atp.WorkStartMessage{StepID: "s", Config: map[string]any{"mode": []any{int64(1), int64(2)}}}), Run: "r1", Kind: "fatal"},
 		item{Name: "start(r1,data=string)", Bytes: rt(atp.MessageTypeWorkStart, "r1", "not a work start"), MayAnswer: "r1"},
 		item{Name: "signal(r1,sig)", Bytes: sg("r1", "sig", map[string]any{"mode": "x"})},
 		item{Name: "signal(r1,unknown-signal)", Bytes: sg("r1", "nosuch", map[string]any{"mode": "x"})},
@@ -412,6 +417,7 @@ func judge(sh *shape, r *mcrt.Result) (string, []mc.Finding) {
 	// which work-starts did the server accept?
 	owed := map[string]int{}
 	may := map[string]int{}
+	wantKind := map[string][]string{}
 	delivered := len(startMsg)
 	handshook := o.cut < 0 || o.cut >= len(startMsg)
 	if handshook {
@@ -422,6 +428,7 @@ func judge(sh *shape, r *mcrt.Result) (string, []mc.Finding) {
 			}
 			if it.Run != "" {
 				owed[it.Run]++
+				wantKind[it.Run] = append(wantKind[it.Run], it.Kind)
 			}
 			if it.MayAnswer != "" {
 				may[it.MayAnswer]++
@@ -435,10 +442,16 @@ func judge(sh *shape, r *mcrt.Result) (string, []mc.Finding) {
 		add("no hello message although the start message arrived", "")
 	}
 	got := map[string]int{}
+	gotKind := map[string][]string{}
 	nerr := 0
 	for _, m := range msgs {
 		if m.ID == atp.MessageTypeWorkDone || (m.ID == atp.MessageTypeError && m.Fatal && !m.Srv && m.RunID != "") {
 			got[m.RunID]++
+			if m.ID == atp.MessageTypeWorkDone {
+				gotKind[m.RunID] = append(gotKind[m.RunID], "done")
+			} else {
+				gotKind[m.RunID] = append(gotKind[m.RunID], "fatal")
+			}
 		}
 		if m.ID == atp.MessageTypeError {
 			nerr++
@@ -451,6 +464,16 @@ func judge(sh *shape, r *mcrt.Result) (string, []mc.Finding) {
 				kind = "duplicated"
 			}
 			add(fmt.Sprintf("terminal message %s for an accepted work-start", kind), fmt.Sprintf("run %s: %d accepted work-start(s), %d terminal message(s); output messages: %v", run, n, got[run], msgs))
+		}
+	}
+	// the kind of the terminal message, where the run id was used once and the script pins the kind down
+	for run, want := range wantKind {
+		if len(want) == 1 && want[0] != "" && may[run] == 0 && len(gotKind[run]) == 1 && gotKind[run][0] != want[0] {
+			what := "work-done sent for a run whose step failed or returned undeclared / non-conforming output"
+			if want[0] == "done" {
+				what = "step-fatal error sent for a run whose step returned a declared, conforming output"
+			}
+			add("terminal message of the wrong kind: "+what, fmt.Sprintf("run %s; output messages: %v", run, msgs))
 		}
 	}
 	for run, n := range got {
@@ -513,7 +536,7 @@ func main() {
 			if tier == "thorough" {
 				return 25 * time.Minute
 			}
-			return 150 * time.Second
+			return 300 * time.Second
 		},
 		Rule: fmt.Sprintf("client scripts = handshake + every sequence of N messages over an alphabet of %d valid/invalid items (work-starts with 8 step behaviours (one returns an infinite float) and an input the step's schema rejects, duplicate/unknown/empty ids, wrongly typed payloads, 7 signal variants, unknown message id, client-done, malformed CBOR, wrong envelope), optionally cut at every byte offset, then end of input; for each script every thread schedule within the delay bound; distinct = (shape, outcome) pairs", len(alphabet)),
 		Assumptions: []string{
